@@ -146,7 +146,10 @@ class SearchKey(Parseable[bytes]):
     def _parse_astring_filter(cls, buf: memoryview, params: Params) \
             -> tuple[str, memoryview]:
         ret, after = AString.parse(buf, params)
-        return ret.value.decode(params.charset or 'ascii'), after
+        try:
+            return ret.value.decode(params.charset or 'ascii'), after
+        except ValueError as exc:
+            raise NotParseable(buf) from exc
 
     @classmethod
     def _parse_date_filter(cls, buf: memoryview, params: Params) \
